@@ -328,6 +328,15 @@ func (w *Workbook) WriteDisabled(path string, disable map[int]bool) error {
 		l, _ := strconv.Atoi(sub[1])
 		if disable[l] {
 			removed[l] = true
+			// both ways a product profile disables a row: an empty
+			// EXAMPLE cell (odd rows) and the value 0 (even rows)
+			if l%2 == 0 {
+				pre := ""
+				if i := strings.Index(m, ":c "); i > 0 && i < 8 {
+					pre = m[1:i+1]
+				}
+				return `<` + pre + `c r="P` + sub[1] + `"><` + pre + `v>0</` + pre + `v></` + pre + `c>`
+			}
 			return ""
 		}
 		return m
